@@ -472,7 +472,14 @@ impl Property for C08 {
                 // members of struct/union type have padding of their own, which cannot be observed
                 // after a move: only scalar, pointer and array-of-scalar members are byte-checked
                 .filter(|f| {
-                    let el = crate::probe::element_type(&f.ty);
+                    // (through type aliases: `typedef struct S {..} S_t;` members are aggregates too)
+                    let mut el = crate::probe::element_type(&f.ty);
+                    for _ in 0..8 {
+                        match inv.items.iter().find(|x| x.kind == "type" && x.name == el && x.module.is_empty()) {
+                            Some(a) => el = crate::probe::element_type(&a.ty),
+                            None => break,
+                        }
+                    }
                     el.starts_with("__Bindgen") || !inv.items.iter().any(|x| (x.kind == "struct" || x.kind == "union") && x.name == el)
                 })
                 .map(|f| format!("(::core::mem::offset_of!({name}, {n}), {{ fn sz<T, U>(_: fn(&T) -> &U) -> usize {{ ::core::mem::size_of::<U>() }} sz(|x: &{name}| &x.{n}) }})", n = crate::probe::raw_ident(&f.name)))
